@@ -204,26 +204,30 @@ class SqliteStateStore(Generic[MODEL_T]):
 
     async def set_state(self, state: MODEL_T) -> None:
         """Replace or merge into the current state model."""
-        conn = self._connect()
-        try:
-            cursor = conn.cursor()
-            cursor.execute(
-                "SELECT state_json FROM workflow_state WHERE run_id = ?",
-                (self._run_id,),
-            )
-            row = cursor.fetchone()
+        # Hold the store lock like edit_state() does: otherwise a write made while
+        # another task is inside an edit_state() block is silently overwritten
+        # when that block saves its (older) copy.
+        async with self._lock:
+            conn = self._connect()
+            try:
+                cursor = conn.cursor()
+                cursor.execute(
+                    "SELECT state_json FROM workflow_state WHERE run_id = ?",
+                    (self._run_id,),
+                )
+                row = cursor.fetchone()
 
-            if row is None:
-                self._save_state(state, conn)
+                if row is None:
+                    self._save_state(state, conn)
+                    conn.commit()
+                    return
+
+                current_state = self._deserialize_state(row[0])
+                merged = merge_state(current_state, state)
+                self._save_state(merged, conn)  # type: ignore[arg-type]
                 conn.commit()
-                return
-
-            current_state = self._deserialize_state(row[0])
-            merged = merge_state(current_state, state)
-            self._save_state(merged, conn)  # type: ignore[arg-type]
-            conn.commit()
-        finally:
-            self._release(conn)
+            finally:
+                self._release(conn)
 
     async def get(self, path: str, default: Any = ...) -> Any:
         """Get a nested value using dot-separated paths."""
